@@ -1,0 +1,36 @@
+//go:build verif
+
+package rtmp
+
+import (
+	"net"
+
+	"github.com/q191201771/lal/pkg/base"
+	"github.com/q191201771/naza/pkg/connection"
+)
+
+func verifClient(push bool, conn net.Conn) *ClientSession {
+	t := base.SessionTypeRtmpPull
+	if push {
+		t = base.SessionTypeRtmpPush
+	}
+	s := NewClientSession(t)
+	s.conn = connection.New(conn)
+	return s
+}
+
+// VerifClientDoMsg runs ClientSession.doMsg on one complete message (as ChunkComposer would deliver it) over conn.
+func VerifClientDoMsg(push bool, conn net.Conn, typeId uint8, payload []byte) error {
+	s := verifClient(push, conn)
+	st := NewStream()
+	st.header.MsgTypeId = typeId
+	st.header.MsgLen = uint32(len(payload))
+	_, _ = st.msg.buff.Write(payload)
+	return s.doMsg(st)
+}
+
+// VerifClientReadLoop runs the read loop of a client session (after the handshake) in the calling goroutine until conn is exhausted.
+func VerifClientReadLoop(push bool, conn net.Conn) error {
+	s := verifClient(push, conn)
+	return s.chunkComposer.RunLoop(s.conn, s.doMsg)
+}
